@@ -1,6 +1,8 @@
 (* ------------------------------------------------------------------------- *)
 (*  C11 — proofs about Model/FilterFlow.v                                       *)
 (*                                                                             *)
+(*  Part R (reals)     compensated-trajectory formulas traced from the code;  *)
+(*                     exact inverse of the error definition (perturb_pva)      *)
 (*  Part A (lists, Q)  the fold of the event trace of the feedforward loop is   *)
 (*                     the textbook recursion on the filter's time grid         *)
 (*  Part B (MathComp)  the operations: H_full embedding, every correction is    *)
@@ -10,6 +12,104 @@
 (*                     least-squares (Gauss-Markov) solution, positive-definite *)
 (*                     data, any number of stages                               *)
 (* ------------------------------------------------------------------------- *)
+(* ------------------------------------------------------------------------- *)
+(*  Part R (real numbers): the compensation formulas of                          *)
+(*  _compute_feedforward_result, GENERATED in Gen/C11Gen.v from the live function *)
+(* ------------------------------------------------------------------------- *)
+From Coq Require Import Reals Lra.
+From PV Require Import Spec.LibSpecs Gen.Earth Gen.ErrState Gen.C11Gen.
+
+Section Compensation.
+Local Open Scope R_scope.
+Variables lat lon alt VN VE VD roll pitch heading nlat nalt : R.
+Variables t00 t01 t02 t03 t04 t05 t06 t07 t08 t10 t11 t12 t13 t14 t15 t16 t17 t18 t20 t21 t22 t23 t24 t25 t26 t27 t28 t30 t31 t32 t33 t34 t35 t36 t37 t38 t40 t41 t42 t43 t44 t45 t46 t47 t48 t50 t51 t52 t53 t54 t55 t56 t57 t58 t60 t61 t62 t63 t64 t65 t66 t67 t68 t70 t71 t72 t73 t74 t75 t76 t77 t78 t80 t81 t82 t83 t84 t85 t86 t87 t88 : R.
+Variables x0 x1 x2 x3 x4 x5 x6 x7 x8 xg xa : R.
+
+(* error_nav = T x  (T = error_model.transform_to_output(trajectory_nominal): metres, m/s, degrees);
+   lat -= north / rn * (180/pi), lon -= east / rp * (180/pi), alt += down (down is positive downwards,
+   altitude upwards: the computed altitude is LOW by the down error), velocity and rph: minus the error;
+   the radii are those of the NOMINAL row; the sensor estimates are the state entries themselves *)
+Lemma ffres_formulas :
+  ffres_lat lat lon alt VN VE VD roll pitch heading nlat nalt t00 t01 t02 t03 t04 t05 t06 t07 t08 t10 t11 t12 t13 t14 t15 t16 t17 t18 t20 t21 t22 t23 t24 t25 t26 t27 t28 t30 t31 t32 t33 t34 t35 t36 t37 t38 t40 t41 t42 t43 t44 t45 t46 t47 t48 t50 t51 t52 t53 t54 t55 t56 t57 t58 t60 t61 t62 t63 t64 t65 t66 t67 t68 t70 t71 t72 t73 t74 t75 t76 t77 t78 t80 t81 t82 t83 t84 t85 t86 t87 t88 x0 x1 x2 x3 x4 x5 x6 x7 x8 xg xa = lat - (t00 * x0 + t01 * x1 + t02 * x2 + t03 * x3 + t04 * x4 + t05 * x5 + t06 * x6 + t07 * x7 + t08 * x8) / principal_radii_rn nlat nalt * (180 / PI) /\
+  ffres_lon lat lon alt VN VE VD roll pitch heading nlat nalt t00 t01 t02 t03 t04 t05 t06 t07 t08 t10 t11 t12 t13 t14 t15 t16 t17 t18 t20 t21 t22 t23 t24 t25 t26 t27 t28 t30 t31 t32 t33 t34 t35 t36 t37 t38 t40 t41 t42 t43 t44 t45 t46 t47 t48 t50 t51 t52 t53 t54 t55 t56 t57 t58 t60 t61 t62 t63 t64 t65 t66 t67 t68 t70 t71 t72 t73 t74 t75 t76 t77 t78 t80 t81 t82 t83 t84 t85 t86 t87 t88 x0 x1 x2 x3 x4 x5 x6 x7 x8 xg xa = lon - (t10 * x0 + t11 * x1 + t12 * x2 + t13 * x3 + t14 * x4 + t15 * x5 + t16 * x6 + t17 * x7 + t18 * x8) / principal_radii_rp nlat nalt * (180 / PI) /\
+  ffres_alt lat lon alt VN VE VD roll pitch heading nlat nalt t00 t01 t02 t03 t04 t05 t06 t07 t08 t10 t11 t12 t13 t14 t15 t16 t17 t18 t20 t21 t22 t23 t24 t25 t26 t27 t28 t30 t31 t32 t33 t34 t35 t36 t37 t38 t40 t41 t42 t43 t44 t45 t46 t47 t48 t50 t51 t52 t53 t54 t55 t56 t57 t58 t60 t61 t62 t63 t64 t65 t66 t67 t68 t70 t71 t72 t73 t74 t75 t76 t77 t78 t80 t81 t82 t83 t84 t85 t86 t87 t88 x0 x1 x2 x3 x4 x5 x6 x7 x8 xg xa = alt + (t20 * x0 + t21 * x1 + t22 * x2 + t23 * x3 + t24 * x4 + t25 * x5 + t26 * x6 + t27 * x7 + t28 * x8) /\
+  ffres_VN lat lon alt VN VE VD roll pitch heading nlat nalt t00 t01 t02 t03 t04 t05 t06 t07 t08 t10 t11 t12 t13 t14 t15 t16 t17 t18 t20 t21 t22 t23 t24 t25 t26 t27 t28 t30 t31 t32 t33 t34 t35 t36 t37 t38 t40 t41 t42 t43 t44 t45 t46 t47 t48 t50 t51 t52 t53 t54 t55 t56 t57 t58 t60 t61 t62 t63 t64 t65 t66 t67 t68 t70 t71 t72 t73 t74 t75 t76 t77 t78 t80 t81 t82 t83 t84 t85 t86 t87 t88 x0 x1 x2 x3 x4 x5 x6 x7 x8 xg xa = VN - (t30 * x0 + t31 * x1 + t32 * x2 + t33 * x3 + t34 * x4 + t35 * x5 + t36 * x6 + t37 * x7 + t38 * x8) /\
+  ffres_VE lat lon alt VN VE VD roll pitch heading nlat nalt t00 t01 t02 t03 t04 t05 t06 t07 t08 t10 t11 t12 t13 t14 t15 t16 t17 t18 t20 t21 t22 t23 t24 t25 t26 t27 t28 t30 t31 t32 t33 t34 t35 t36 t37 t38 t40 t41 t42 t43 t44 t45 t46 t47 t48 t50 t51 t52 t53 t54 t55 t56 t57 t58 t60 t61 t62 t63 t64 t65 t66 t67 t68 t70 t71 t72 t73 t74 t75 t76 t77 t78 t80 t81 t82 t83 t84 t85 t86 t87 t88 x0 x1 x2 x3 x4 x5 x6 x7 x8 xg xa = VE - (t40 * x0 + t41 * x1 + t42 * x2 + t43 * x3 + t44 * x4 + t45 * x5 + t46 * x6 + t47 * x7 + t48 * x8) /\
+  ffres_VD lat lon alt VN VE VD roll pitch heading nlat nalt t00 t01 t02 t03 t04 t05 t06 t07 t08 t10 t11 t12 t13 t14 t15 t16 t17 t18 t20 t21 t22 t23 t24 t25 t26 t27 t28 t30 t31 t32 t33 t34 t35 t36 t37 t38 t40 t41 t42 t43 t44 t45 t46 t47 t48 t50 t51 t52 t53 t54 t55 t56 t57 t58 t60 t61 t62 t63 t64 t65 t66 t67 t68 t70 t71 t72 t73 t74 t75 t76 t77 t78 t80 t81 t82 t83 t84 t85 t86 t87 t88 x0 x1 x2 x3 x4 x5 x6 x7 x8 xg xa = VD - (t50 * x0 + t51 * x1 + t52 * x2 + t53 * x3 + t54 * x4 + t55 * x5 + t56 * x6 + t57 * x7 + t58 * x8) /\
+  ffres_roll lat lon alt VN VE VD roll pitch heading nlat nalt t00 t01 t02 t03 t04 t05 t06 t07 t08 t10 t11 t12 t13 t14 t15 t16 t17 t18 t20 t21 t22 t23 t24 t25 t26 t27 t28 t30 t31 t32 t33 t34 t35 t36 t37 t38 t40 t41 t42 t43 t44 t45 t46 t47 t48 t50 t51 t52 t53 t54 t55 t56 t57 t58 t60 t61 t62 t63 t64 t65 t66 t67 t68 t70 t71 t72 t73 t74 t75 t76 t77 t78 t80 t81 t82 t83 t84 t85 t86 t87 t88 x0 x1 x2 x3 x4 x5 x6 x7 x8 xg xa = roll - (t60 * x0 + t61 * x1 + t62 * x2 + t63 * x3 + t64 * x4 + t65 * x5 + t66 * x6 + t67 * x7 + t68 * x8) /\
+  ffres_pitch lat lon alt VN VE VD roll pitch heading nlat nalt t00 t01 t02 t03 t04 t05 t06 t07 t08 t10 t11 t12 t13 t14 t15 t16 t17 t18 t20 t21 t22 t23 t24 t25 t26 t27 t28 t30 t31 t32 t33 t34 t35 t36 t37 t38 t40 t41 t42 t43 t44 t45 t46 t47 t48 t50 t51 t52 t53 t54 t55 t56 t57 t58 t60 t61 t62 t63 t64 t65 t66 t67 t68 t70 t71 t72 t73 t74 t75 t76 t77 t78 t80 t81 t82 t83 t84 t85 t86 t87 t88 x0 x1 x2 x3 x4 x5 x6 x7 x8 xg xa = pitch - (t70 * x0 + t71 * x1 + t72 * x2 + t73 * x3 + t74 * x4 + t75 * x5 + t76 * x6 + t77 * x7 + t78 * x8) /\
+  ffres_heading lat lon alt VN VE VD roll pitch heading nlat nalt t00 t01 t02 t03 t04 t05 t06 t07 t08 t10 t11 t12 t13 t14 t15 t16 t17 t18 t20 t21 t22 t23 t24 t25 t26 t27 t28 t30 t31 t32 t33 t34 t35 t36 t37 t38 t40 t41 t42 t43 t44 t45 t46 t47 t48 t50 t51 t52 t53 t54 t55 t56 t57 t58 t60 t61 t62 t63 t64 t65 t66 t67 t68 t70 t71 t72 t73 t74 t75 t76 t77 t78 t80 t81 t82 t83 t84 t85 t86 t87 t88 x0 x1 x2 x3 x4 x5 x6 x7 x8 xg xa = heading - (t80 * x0 + t81 * x1 + t82 * x2 + t83 * x3 + t84 * x4 + t85 * x5 + t86 * x6 + t87 * x7 + t88 * x8) /\
+  ffres_gyro lat lon alt VN VE VD roll pitch heading nlat nalt t00 t01 t02 t03 t04 t05 t06 t07 t08 t10 t11 t12 t13 t14 t15 t16 t17 t18 t20 t21 t22 t23 t24 t25 t26 t27 t28 t30 t31 t32 t33 t34 t35 t36 t37 t38 t40 t41 t42 t43 t44 t45 t46 t47 t48 t50 t51 t52 t53 t54 t55 t56 t57 t58 t60 t61 t62 t63 t64 t65 t66 t67 t68 t70 t71 t72 t73 t74 t75 t76 t77 t78 t80 t81 t82 t83 t84 t85 t86 t87 t88 x0 x1 x2 x3 x4 x5 x6 x7 x8 xg xa = xg /\
+  ffres_accel lat lon alt VN VE VD roll pitch heading nlat nalt t00 t01 t02 t03 t04 t05 t06 t07 t08 t10 t11 t12 t13 t14 t15 t16 t17 t18 t20 t21 t22 t23 t24 t25 t26 t27 t28 t30 t31 t32 t33 t34 t35 t36 t37 t38 t40 t41 t42 t43 t44 t45 t46 t47 t48 t50 t51 t52 t53 t54 t55 t56 t57 t58 t60 t61 t62 t63 t64 t65 t66 t67 t68 t70 t71 t72 t73 t74 t75 t76 t77 t78 t80 t81 t82 t83 t84 t85 t86 t87 t88 x0 x1 x2 x3 x4 x5 x6 x7 x8 xg xa = xa.
+Proof.
+  unfold ffres_lat, ffres_lon, ffres_alt, ffres_VN, ffres_VE, ffres_VD, ffres_roll, ffres_pitch, ffres_heading,
+    ffres_gyro, ffres_accel, principal_radii_rn, principal_radii_rp.
+  autounfold with ffres_db principal_radii_db.
+  repeat split; reflexivity.
+Qed.
+End Compensation.
+
+Section CompensationInverse.
+Local Open Scope R_scope.
+Variables lat lon alt VN VE VD roll pitch heading : R.
+Variables e0 e1 e2 e3 e4 e5 e6 e7 e8 xg xa : R.
+
+(* The error definition of the library is sim.perturb_pva (traced in Gen/ErrState.v):
+   computed = perturb_pva(true, e) with e = (north east down [m], VN VE VD [m/s], roll pitch heading [deg]).
+   With the true row as nominal row and error_nav = e (T = identity on the output coordinates) the
+   compensation returns the true row EXACTLY: it is the inverse of the error definition in the same
+   units and sign conventions.  (With the computed row as nominal row the radii are evaluated at the
+   perturbed latitude / altitude: the inverse then holds to first order in e.) *)
+Lemma compensation_inverts_perturbation :
+  principal_radii_rn lat alt <> 0 -> principal_radii_rp lat alt <> 0 ->
+  ffres_lat (perturb_pva_lat lat lon alt VN VE VD roll pitch heading e0 e1 e2 e3 e4 e5 e6 e7 e8) (perturb_pva_lon lat lon alt VN VE VD roll pitch heading e0 e1 e2 e3 e4 e5 e6 e7 e8) (perturb_pva_alt lat lon alt VN VE VD roll pitch heading e0 e1 e2 e3 e4 e5 e6 e7 e8) (perturb_pva_VN lat lon alt VN VE VD roll pitch heading e0 e1 e2 e3 e4 e5 e6 e7 e8) (perturb_pva_VE lat lon alt VN VE VD roll pitch heading e0 e1 e2 e3 e4 e5 e6 e7 e8) (perturb_pva_VD lat lon alt VN VE VD roll pitch heading e0 e1 e2 e3 e4 e5 e6 e7 e8) (perturb_pva_roll lat lon alt VN VE VD roll pitch heading e0 e1 e2 e3 e4 e5 e6 e7 e8) (perturb_pva_pitch lat lon alt VN VE VD roll pitch heading e0 e1 e2 e3 e4 e5 e6 e7 e8) (perturb_pva_heading lat lon alt VN VE VD roll pitch heading e0 e1 e2 e3 e4 e5 e6 e7 e8) lat alt 1 0 0 0 0 0 0 0 0 0 1 0 0 0 0 0 0 0 0 0 1 0 0 0 0 0 0 0 0 0 1 0 0 0 0 0 0 0 0 0 1 0 0 0 0 0 0 0 0 0 1 0 0 0 0 0 0 0 0 0 1 0 0 0 0 0 0 0 0 0 1 0 0 0 0 0 0 0 0 0 1 e0 e1 e2 e3 e4 e5 e6 e7 e8 xg xa = lat /\
+  ffres_lon (perturb_pva_lat lat lon alt VN VE VD roll pitch heading e0 e1 e2 e3 e4 e5 e6 e7 e8) (perturb_pva_lon lat lon alt VN VE VD roll pitch heading e0 e1 e2 e3 e4 e5 e6 e7 e8) (perturb_pva_alt lat lon alt VN VE VD roll pitch heading e0 e1 e2 e3 e4 e5 e6 e7 e8) (perturb_pva_VN lat lon alt VN VE VD roll pitch heading e0 e1 e2 e3 e4 e5 e6 e7 e8) (perturb_pva_VE lat lon alt VN VE VD roll pitch heading e0 e1 e2 e3 e4 e5 e6 e7 e8) (perturb_pva_VD lat lon alt VN VE VD roll pitch heading e0 e1 e2 e3 e4 e5 e6 e7 e8) (perturb_pva_roll lat lon alt VN VE VD roll pitch heading e0 e1 e2 e3 e4 e5 e6 e7 e8) (perturb_pva_pitch lat lon alt VN VE VD roll pitch heading e0 e1 e2 e3 e4 e5 e6 e7 e8) (perturb_pva_heading lat lon alt VN VE VD roll pitch heading e0 e1 e2 e3 e4 e5 e6 e7 e8) lat alt 1 0 0 0 0 0 0 0 0 0 1 0 0 0 0 0 0 0 0 0 1 0 0 0 0 0 0 0 0 0 1 0 0 0 0 0 0 0 0 0 1 0 0 0 0 0 0 0 0 0 1 0 0 0 0 0 0 0 0 0 1 0 0 0 0 0 0 0 0 0 1 0 0 0 0 0 0 0 0 0 1 e0 e1 e2 e3 e4 e5 e6 e7 e8 xg xa = lon /\
+  ffres_alt (perturb_pva_lat lat lon alt VN VE VD roll pitch heading e0 e1 e2 e3 e4 e5 e6 e7 e8) (perturb_pva_lon lat lon alt VN VE VD roll pitch heading e0 e1 e2 e3 e4 e5 e6 e7 e8) (perturb_pva_alt lat lon alt VN VE VD roll pitch heading e0 e1 e2 e3 e4 e5 e6 e7 e8) (perturb_pva_VN lat lon alt VN VE VD roll pitch heading e0 e1 e2 e3 e4 e5 e6 e7 e8) (perturb_pva_VE lat lon alt VN VE VD roll pitch heading e0 e1 e2 e3 e4 e5 e6 e7 e8) (perturb_pva_VD lat lon alt VN VE VD roll pitch heading e0 e1 e2 e3 e4 e5 e6 e7 e8) (perturb_pva_roll lat lon alt VN VE VD roll pitch heading e0 e1 e2 e3 e4 e5 e6 e7 e8) (perturb_pva_pitch lat lon alt VN VE VD roll pitch heading e0 e1 e2 e3 e4 e5 e6 e7 e8) (perturb_pva_heading lat lon alt VN VE VD roll pitch heading e0 e1 e2 e3 e4 e5 e6 e7 e8) lat alt 1 0 0 0 0 0 0 0 0 0 1 0 0 0 0 0 0 0 0 0 1 0 0 0 0 0 0 0 0 0 1 0 0 0 0 0 0 0 0 0 1 0 0 0 0 0 0 0 0 0 1 0 0 0 0 0 0 0 0 0 1 0 0 0 0 0 0 0 0 0 1 0 0 0 0 0 0 0 0 0 1 e0 e1 e2 e3 e4 e5 e6 e7 e8 xg xa = alt /\
+  ffres_VN (perturb_pva_lat lat lon alt VN VE VD roll pitch heading e0 e1 e2 e3 e4 e5 e6 e7 e8) (perturb_pva_lon lat lon alt VN VE VD roll pitch heading e0 e1 e2 e3 e4 e5 e6 e7 e8) (perturb_pva_alt lat lon alt VN VE VD roll pitch heading e0 e1 e2 e3 e4 e5 e6 e7 e8) (perturb_pva_VN lat lon alt VN VE VD roll pitch heading e0 e1 e2 e3 e4 e5 e6 e7 e8) (perturb_pva_VE lat lon alt VN VE VD roll pitch heading e0 e1 e2 e3 e4 e5 e6 e7 e8) (perturb_pva_VD lat lon alt VN VE VD roll pitch heading e0 e1 e2 e3 e4 e5 e6 e7 e8) (perturb_pva_roll lat lon alt VN VE VD roll pitch heading e0 e1 e2 e3 e4 e5 e6 e7 e8) (perturb_pva_pitch lat lon alt VN VE VD roll pitch heading e0 e1 e2 e3 e4 e5 e6 e7 e8) (perturb_pva_heading lat lon alt VN VE VD roll pitch heading e0 e1 e2 e3 e4 e5 e6 e7 e8) lat alt 1 0 0 0 0 0 0 0 0 0 1 0 0 0 0 0 0 0 0 0 1 0 0 0 0 0 0 0 0 0 1 0 0 0 0 0 0 0 0 0 1 0 0 0 0 0 0 0 0 0 1 0 0 0 0 0 0 0 0 0 1 0 0 0 0 0 0 0 0 0 1 0 0 0 0 0 0 0 0 0 1 e0 e1 e2 e3 e4 e5 e6 e7 e8 xg xa = VN /\
+  ffres_VE (perturb_pva_lat lat lon alt VN VE VD roll pitch heading e0 e1 e2 e3 e4 e5 e6 e7 e8) (perturb_pva_lon lat lon alt VN VE VD roll pitch heading e0 e1 e2 e3 e4 e5 e6 e7 e8) (perturb_pva_alt lat lon alt VN VE VD roll pitch heading e0 e1 e2 e3 e4 e5 e6 e7 e8) (perturb_pva_VN lat lon alt VN VE VD roll pitch heading e0 e1 e2 e3 e4 e5 e6 e7 e8) (perturb_pva_VE lat lon alt VN VE VD roll pitch heading e0 e1 e2 e3 e4 e5 e6 e7 e8) (perturb_pva_VD lat lon alt VN VE VD roll pitch heading e0 e1 e2 e3 e4 e5 e6 e7 e8) (perturb_pva_roll lat lon alt VN VE VD roll pitch heading e0 e1 e2 e3 e4 e5 e6 e7 e8) (perturb_pva_pitch lat lon alt VN VE VD roll pitch heading e0 e1 e2 e3 e4 e5 e6 e7 e8) (perturb_pva_heading lat lon alt VN VE VD roll pitch heading e0 e1 e2 e3 e4 e5 e6 e7 e8) lat alt 1 0 0 0 0 0 0 0 0 0 1 0 0 0 0 0 0 0 0 0 1 0 0 0 0 0 0 0 0 0 1 0 0 0 0 0 0 0 0 0 1 0 0 0 0 0 0 0 0 0 1 0 0 0 0 0 0 0 0 0 1 0 0 0 0 0 0 0 0 0 1 0 0 0 0 0 0 0 0 0 1 e0 e1 e2 e3 e4 e5 e6 e7 e8 xg xa = VE /\
+  ffres_VD (perturb_pva_lat lat lon alt VN VE VD roll pitch heading e0 e1 e2 e3 e4 e5 e6 e7 e8) (perturb_pva_lon lat lon alt VN VE VD roll pitch heading e0 e1 e2 e3 e4 e5 e6 e7 e8) (perturb_pva_alt lat lon alt VN VE VD roll pitch heading e0 e1 e2 e3 e4 e5 e6 e7 e8) (perturb_pva_VN lat lon alt VN VE VD roll pitch heading e0 e1 e2 e3 e4 e5 e6 e7 e8) (perturb_pva_VE lat lon alt VN VE VD roll pitch heading e0 e1 e2 e3 e4 e5 e6 e7 e8) (perturb_pva_VD lat lon alt VN VE VD roll pitch heading e0 e1 e2 e3 e4 e5 e6 e7 e8) (perturb_pva_roll lat lon alt VN VE VD roll pitch heading e0 e1 e2 e3 e4 e5 e6 e7 e8) (perturb_pva_pitch lat lon alt VN VE VD roll pitch heading e0 e1 e2 e3 e4 e5 e6 e7 e8) (perturb_pva_heading lat lon alt VN VE VD roll pitch heading e0 e1 e2 e3 e4 e5 e6 e7 e8) lat alt 1 0 0 0 0 0 0 0 0 0 1 0 0 0 0 0 0 0 0 0 1 0 0 0 0 0 0 0 0 0 1 0 0 0 0 0 0 0 0 0 1 0 0 0 0 0 0 0 0 0 1 0 0 0 0 0 0 0 0 0 1 0 0 0 0 0 0 0 0 0 1 0 0 0 0 0 0 0 0 0 1 e0 e1 e2 e3 e4 e5 e6 e7 e8 xg xa = VD /\
+  ffres_roll (perturb_pva_lat lat lon alt VN VE VD roll pitch heading e0 e1 e2 e3 e4 e5 e6 e7 e8) (perturb_pva_lon lat lon alt VN VE VD roll pitch heading e0 e1 e2 e3 e4 e5 e6 e7 e8) (perturb_pva_alt lat lon alt VN VE VD roll pitch heading e0 e1 e2 e3 e4 e5 e6 e7 e8) (perturb_pva_VN lat lon alt VN VE VD roll pitch heading e0 e1 e2 e3 e4 e5 e6 e7 e8) (perturb_pva_VE lat lon alt VN VE VD roll pitch heading e0 e1 e2 e3 e4 e5 e6 e7 e8) (perturb_pva_VD lat lon alt VN VE VD roll pitch heading e0 e1 e2 e3 e4 e5 e6 e7 e8) (perturb_pva_roll lat lon alt VN VE VD roll pitch heading e0 e1 e2 e3 e4 e5 e6 e7 e8) (perturb_pva_pitch lat lon alt VN VE VD roll pitch heading e0 e1 e2 e3 e4 e5 e6 e7 e8) (perturb_pva_heading lat lon alt VN VE VD roll pitch heading e0 e1 e2 e3 e4 e5 e6 e7 e8) lat alt 1 0 0 0 0 0 0 0 0 0 1 0 0 0 0 0 0 0 0 0 1 0 0 0 0 0 0 0 0 0 1 0 0 0 0 0 0 0 0 0 1 0 0 0 0 0 0 0 0 0 1 0 0 0 0 0 0 0 0 0 1 0 0 0 0 0 0 0 0 0 1 0 0 0 0 0 0 0 0 0 1 e0 e1 e2 e3 e4 e5 e6 e7 e8 xg xa = roll /\
+  ffres_pitch (perturb_pva_lat lat lon alt VN VE VD roll pitch heading e0 e1 e2 e3 e4 e5 e6 e7 e8) (perturb_pva_lon lat lon alt VN VE VD roll pitch heading e0 e1 e2 e3 e4 e5 e6 e7 e8) (perturb_pva_alt lat lon alt VN VE VD roll pitch heading e0 e1 e2 e3 e4 e5 e6 e7 e8) (perturb_pva_VN lat lon alt VN VE VD roll pitch heading e0 e1 e2 e3 e4 e5 e6 e7 e8) (perturb_pva_VE lat lon alt VN VE VD roll pitch heading e0 e1 e2 e3 e4 e5 e6 e7 e8) (perturb_pva_VD lat lon alt VN VE VD roll pitch heading e0 e1 e2 e3 e4 e5 e6 e7 e8) (perturb_pva_roll lat lon alt VN VE VD roll pitch heading e0 e1 e2 e3 e4 e5 e6 e7 e8) (perturb_pva_pitch lat lon alt VN VE VD roll pitch heading e0 e1 e2 e3 e4 e5 e6 e7 e8) (perturb_pva_heading lat lon alt VN VE VD roll pitch heading e0 e1 e2 e3 e4 e5 e6 e7 e8) lat alt 1 0 0 0 0 0 0 0 0 0 1 0 0 0 0 0 0 0 0 0 1 0 0 0 0 0 0 0 0 0 1 0 0 0 0 0 0 0 0 0 1 0 0 0 0 0 0 0 0 0 1 0 0 0 0 0 0 0 0 0 1 0 0 0 0 0 0 0 0 0 1 0 0 0 0 0 0 0 0 0 1 e0 e1 e2 e3 e4 e5 e6 e7 e8 xg xa = pitch /\
+  ffres_heading (perturb_pva_lat lat lon alt VN VE VD roll pitch heading e0 e1 e2 e3 e4 e5 e6 e7 e8) (perturb_pva_lon lat lon alt VN VE VD roll pitch heading e0 e1 e2 e3 e4 e5 e6 e7 e8) (perturb_pva_alt lat lon alt VN VE VD roll pitch heading e0 e1 e2 e3 e4 e5 e6 e7 e8) (perturb_pva_VN lat lon alt VN VE VD roll pitch heading e0 e1 e2 e3 e4 e5 e6 e7 e8) (perturb_pva_VE lat lon alt VN VE VD roll pitch heading e0 e1 e2 e3 e4 e5 e6 e7 e8) (perturb_pva_VD lat lon alt VN VE VD roll pitch heading e0 e1 e2 e3 e4 e5 e6 e7 e8) (perturb_pva_roll lat lon alt VN VE VD roll pitch heading e0 e1 e2 e3 e4 e5 e6 e7 e8) (perturb_pva_pitch lat lon alt VN VE VD roll pitch heading e0 e1 e2 e3 e4 e5 e6 e7 e8) (perturb_pva_heading lat lon alt VN VE VD roll pitch heading e0 e1 e2 e3 e4 e5 e6 e7 e8) lat alt 1 0 0 0 0 0 0 0 0 0 1 0 0 0 0 0 0 0 0 0 1 0 0 0 0 0 0 0 0 0 1 0 0 0 0 0 0 0 0 0 1 0 0 0 0 0 0 0 0 0 1 0 0 0 0 0 0 0 0 0 1 0 0 0 0 0 0 0 0 0 1 0 0 0 0 0 0 0 0 0 1 e0 e1 e2 e3 e4 e5 e6 e7 e8 xg xa = heading.
+Proof.
+  intros Hrn Hrp.
+  unfold ffres_lat, ffres_lon, ffres_alt, ffres_VN, ffres_VE, ffres_VD, ffres_roll, ffres_pitch, ffres_heading.
+  unfold perturb_pva_lat, perturb_pva_lon, perturb_pva_alt, perturb_pva_VN, perturb_pva_VE, perturb_pva_VD,
+    perturb_pva_roll, perturb_pva_pitch, perturb_pva_heading.
+  unfold principal_radii_rn, principal_radii_rp in Hrn, Hrp.
+  autounfold with ffres_db perturb_pva_db principal_radii_db in *.
+  assert (HPI : PI <> 0) by (apply Rgt_not_eq, PI_RGT_0).
+  split; [|split; [|repeat split; ring]].
+  - match goal with |- context [e0 / ?d] => set (D := d) in * end. field. split; assumption.
+  - match goal with |- context [e1 / ?d] => set (D := d) in * end. field. split; assumption.
+Qed.
+End CompensationInverse.
+
+Section CompensationSd.
+Local Open Scope R_scope.
+Variables t00 t01 t10 t11 t20 t21 t30 t31 t40 t41 t50 t51 t60 t61 t70 t71 t80 t81 : R.
+Variables p00 p01 p02 p03 p10 p11 p12 p13 p20 p21 p22 p23 p30 p31 p32 p33 : R.
+
+(* trajectory_sd[k] = sqrt((T P_ins T^T)[k, k]); gyro_sd / accel_sd = sqrt of the diagonal entry of P
+   (states ordered ins | gyro | accel: here 2 | 1 | 1) *)
+Lemma ffsd_formulas :
+  ffsd_sd_north t00 t01 t10 t11 t20 t21 t30 t31 t40 t41 t50 t51 t60 t61 t70 t71 t80 t81 p00 p01 p02 p03 p10 p11 p12 p13 p20 p21 p22 p23 p30 p31 p32 p33 = sqrt (t00 * p00 * t00 + t00 * p01 * t01 + t01 * p10 * t00 + t01 * p11 * t01) /\
+  ffsd_sd_east t00 t01 t10 t11 t20 t21 t30 t31 t40 t41 t50 t51 t60 t61 t70 t71 t80 t81 p00 p01 p02 p03 p10 p11 p12 p13 p20 p21 p22 p23 p30 p31 p32 p33 = sqrt (t10 * p00 * t10 + t10 * p01 * t11 + t11 * p10 * t10 + t11 * p11 * t11) /\
+  ffsd_sd_down t00 t01 t10 t11 t20 t21 t30 t31 t40 t41 t50 t51 t60 t61 t70 t71 t80 t81 p00 p01 p02 p03 p10 p11 p12 p13 p20 p21 p22 p23 p30 p31 p32 p33 = sqrt (t20 * p00 * t20 + t20 * p01 * t21 + t21 * p10 * t20 + t21 * p11 * t21) /\
+  ffsd_sd_eVN t00 t01 t10 t11 t20 t21 t30 t31 t40 t41 t50 t51 t60 t61 t70 t71 t80 t81 p00 p01 p02 p03 p10 p11 p12 p13 p20 p21 p22 p23 p30 p31 p32 p33 = sqrt (t30 * p00 * t30 + t30 * p01 * t31 + t31 * p10 * t30 + t31 * p11 * t31) /\
+  ffsd_sd_eVE t00 t01 t10 t11 t20 t21 t30 t31 t40 t41 t50 t51 t60 t61 t70 t71 t80 t81 p00 p01 p02 p03 p10 p11 p12 p13 p20 p21 p22 p23 p30 p31 p32 p33 = sqrt (t40 * p00 * t40 + t40 * p01 * t41 + t41 * p10 * t40 + t41 * p11 * t41) /\
+  ffsd_sd_eVD t00 t01 t10 t11 t20 t21 t30 t31 t40 t41 t50 t51 t60 t61 t70 t71 t80 t81 p00 p01 p02 p03 p10 p11 p12 p13 p20 p21 p22 p23 p30 p31 p32 p33 = sqrt (t50 * p00 * t50 + t50 * p01 * t51 + t51 * p10 * t50 + t51 * p11 * t51) /\
+  ffsd_sd_roll t00 t01 t10 t11 t20 t21 t30 t31 t40 t41 t50 t51 t60 t61 t70 t71 t80 t81 p00 p01 p02 p03 p10 p11 p12 p13 p20 p21 p22 p23 p30 p31 p32 p33 = sqrt (t60 * p00 * t60 + t60 * p01 * t61 + t61 * p10 * t60 + t61 * p11 * t61) /\
+  ffsd_sd_pitch t00 t01 t10 t11 t20 t21 t30 t31 t40 t41 t50 t51 t60 t61 t70 t71 t80 t81 p00 p01 p02 p03 p10 p11 p12 p13 p20 p21 p22 p23 p30 p31 p32 p33 = sqrt (t70 * p00 * t70 + t70 * p01 * t71 + t71 * p10 * t70 + t71 * p11 * t71) /\
+  ffsd_sd_heading t00 t01 t10 t11 t20 t21 t30 t31 t40 t41 t50 t51 t60 t61 t70 t71 t80 t81 p00 p01 p02 p03 p10 p11 p12 p13 p20 p21 p22 p23 p30 p31 p32 p33 = sqrt (t80 * p00 * t80 + t80 * p01 * t81 + t81 * p10 * t80 + t81 * p11 * t81) /\
+  ffsd_sd_gyro t00 t01 t10 t11 t20 t21 t30 t31 t40 t41 t50 t51 t60 t61 t70 t71 t80 t81 p00 p01 p02 p03 p10 p11 p12 p13 p20 p21 p22 p23 p30 p31 p32 p33 = sqrt p22 /\
+  ffsd_sd_accel t00 t01 t10 t11 t20 t21 t30 t31 t40 t41 t50 t51 t60 t61 t70 t71 t80 t81 p00 p01 p02 p03 p10 p11 p12 p13 p20 p21 p22 p23 p30 p31 p32 p33 = sqrt p33.
+Proof.
+  unfold ffsd_sd_north, ffsd_sd_east, ffsd_sd_down, ffsd_sd_eVN, ffsd_sd_eVE, ffsd_sd_eVD, ffsd_sd_roll, ffsd_sd_pitch, ffsd_sd_heading, ffsd_sd_gyro, ffsd_sd_accel.
+  repeat split; try reflexivity; f_equal; ring.
+Qed.
+End CompensationSd.
+
 From Coq Require Import List QArith Bool Arith Lia Lqa Sorted.
 From PV Require Import Model.FeedbackSched Model.FeedforwardSched Model.FilterFlow Proofs.SchedProofs.
 Import ListNotations.
@@ -302,7 +402,7 @@ Proof. vm_compute. repeat split. Qed.
 (*  Part B : the operations (MathComp)                                        *)
 (* ========================================================================= *)
 From mathcomp Require Import all_ssreflect all_algebra.
-From PV Require Import Spec.LibSpecsMx Spec.Gaussian Gen.Kalman Proofs.KalmanProofs.
+From PV Require Import Spec.LibSpecsMx Spec.Gaussian Gen.Kalman Gen.C11Mx Proofs.KalmanProofs.
 Set Implicit Arguments.
 Unset Strict Implicit.
 Import Order.Theory GRing.Theory Num.Theory.
@@ -335,6 +435,13 @@ Qed.
 
 Lemma h_full_S : correct_S P (row_mx H 0) R = H *m ulsubmx P *m H^T + R.
 Proof. by rewrite correct_S_eq /innov_cov h_full_cov. Qed.
+
+Theorem h_full_embedding :
+  [/\ row_mx H 0 *m x = H *m usubmx x,
+      row_mx H 0 *m P *m (row_mx H 0)^T = H *m ulsubmx P *m H^T,
+      correct_S P (row_mx H 0) R = H *m ulsubmx P *m H^T + R
+    & P *m (row_mx H 0)^T = col_mx (ulsubmx P *m H^T) (dlsubmx P *m H^T)].
+Proof. by split; [exact: h_full_state | exact: h_full_cov | exact: h_full_S | exact: h_full_cross]. Qed.
 End HFull.
 
 (* ---------- every correction is the conditional-Gaussian update ------------ *)
@@ -351,8 +458,10 @@ Variables Phi Qd : nat -> nat -> 'M[F]_n.
 
 Hypothesis R_sym : forall k, (Rf k)^T = Rf k.
 Hypothesis R_pd : forall k, pd (Rf k).
-(* scipy.linalg.cholesky: a lower factor of every symmetric positive definite matrix *)
-Hypothesis chol_ok : forall k (S : 'M[F]_(mdim k)), S^T = S -> pd S -> cholesky_factor (@chol k) S.
+(* scipy.linalg.cholesky returns a lower factor of every innovation covariance H_full P H_full^T + R
+   it can be handed (P symmetric positive semidefinite; the matrix is then positive definite) *)
+Hypothesis chol_ok : forall k m (P : 'M[F]_n), P^T = P -> psd P ->
+  cholesky_factor (@chol k) (correct_S P (@h_full F ni ng na mdim Hf k m) (Rf k)).
 Hypothesis Qd_sym : forall i j, (Qd i j)^T = Qd i j.
 Hypothesis Qd_psd : forall i j, psd (Qd i j).
 
@@ -369,8 +478,7 @@ Lemma k_corr_conditional k m t (s : kstate F ni ng na) :
 Proof.
 case=> sP pP.
 have cF : cholesky_factor (@chol k) (correct_S s.2 (@h_full F ni ng na mdim Hf k m) (Rf k)).
-  apply: chol_ok; first exact: correct_S_sym.
-  exact: correct_S_pd.
+  exact: chol_ok.
 have [e0 e1 _ _] := correct_is_conditional s.1 (zf k m) sP pP (R_sym k) (@R_pd k) cF.
 have [s1 p1 _] := correct_cov_properties sP pP (R_sym k) (@R_pd k) cF.
 by split; [split | rewrite /k_corr /k_corr_spec e0 e1].
@@ -483,6 +591,47 @@ rewrite mul_mx_diag !mxE mulrAC -expr2.
 by apply: mulr_ge0; apply: sqr_ge0.
 Qed.
 
+(* ---- the block terms above ARE the terms generated from the live functions (Gen/C11Mx.v, traced at
+   matrix granularity by tools/reg/c11.py with 3 sensor axes and 9 output states) ---- *)
+Lemma col_row0 (m1 m2 n1 n2 : nat) (A : 'M[F]_(m1, n2)) (B : 'M[F]_(m2, n2)) :
+  col_mx (row_mx (0 : 'M[F]_(m1, n1)) A) (row_mx 0 B) = row_mx 0 (col_mx A B).
+Proof. by rewrite -block_mxEv block_mxEh col_mx0. Qed.
+
+Lemma gen_icov_eq : icov_ret0 Pg Pa T Ppva = init_cov T Ppva Pg Pa.
+Proof. by rewrite /icov_ret0 /icov_P /init_cov row_mx0 col_row0 !block_mxEv. Qed.
+
+Lemma gen_epm_F_eq : epm_ret0 Fg Fa Fii Fig Fia Hg Ha = asm_F Fii Fig Fia Hg Ha Fg Fa.
+Proof. by rewrite /epm_ret0 /epm_F /asm_F col_row0 !block_mxEv. Qed.
+
+Lemma gen_epm_G_eq : epm_G Gg Jg Ga Ja Fig Fia = asm_G Fig Fia Jg Ja Gg Ga.
+Proof. by rewrite /epm_G /asm_G row_mx0. Qed.
+
+Lemma gen_epm_Q_eq :
+  epm_ret1 Gg Jg v_g q_g Ga Ja v_a q_a Fig Fia = asm_Q Fig Fia Jg Ja Gg Ga v_g v_a q_g q_a.
+Proof. by rewrite /epm_ret1 /asm_Q /asm_q gen_epm_G_eq. Qed.
+
+Theorem generated_assembly :
+  [/\ icov_ret0 Pg Pa T Ppva = init_cov T Ppva Pg Pa,
+      epm_ret0 Fg Fa Fii Fig Fia Hg Ha = asm_F Fii Fig Fia Hg Ha Fg Fa
+    & epm_ret1 Gg Jg v_g q_g Ga Ja v_a q_a Fig Fia = asm_Q Fig Fia Jg Ja Gg Ga v_g v_a q_g q_a].
+Proof. by split; [exact: gen_icov_eq | exact: gen_epm_F_eq | exact: gen_epm_Q_eq]. Qed.
+
+(* Q = G diag(q^2) G^T written out: the inertial block receives the gyro / accelerometer OUTPUT noises
+   through Fig Jg and Fia Ja, each parameter block its own driving noise, and there are no cross terms *)
+Lemma asm_Q_blocks :
+  asm_Q Fig Fia Jg Ja Gg Ga v_g v_a q_g q_a =
+  block_mx (Fig *m Jg *m diag_sq v_g *m (Fig *m Jg)^T + Fia *m Ja *m diag_sq v_a *m (Fia *m Ja)^T) 0
+           0 (block_mx (Gg *m diag_sq q_g *m Gg^T) 0 0 (Ga *m diag_sq q_a *m Ga^T)).
+Proof.
+rewrite /asm_Q /asm_G /asm_q !diag_sq_col.
+set A := Fig *m Jg; set B := Fia *m Ja.
+set D1 := diag_sq v_g; set D2 := diag_sq v_a; set D3 := diag_sq q_g; set D4 := diag_sq q_a.
+rewrite !mul_col_mx !mul_row_block !mulmx0 !mul0mx !addr0 !add0r.
+rewrite !tr_col_mx !tr_row_mx !trmx0.
+rewrite !mul_mx_row !mul_row_col !mulmx0 !mul0mx !addr0 !add0r.
+by rewrite row_mx0 col_row0 !block_mxEv.
+Qed.
+
 Lemma asm_Q_ok :
   (asm_Q Fig Fia Jg Ja Gg Ga v_g v_a q_g q_a)^T = asm_Q Fig Fia Jg Ja Gg Ga v_g v_a q_g q_a /\
   psd (asm_Q Fig Fia Jg Ja Gg Ga v_g v_a q_g q_a).
@@ -491,3 +640,441 @@ split; first by rewrite /asm_Q !trmx_mul trmxK diag_sq_sym mulmxA.
 exact/psd_conj/diag_sq_psd.
 Qed.
 End AssemblyFacts.
+
+(* ========================================================================= *)
+(*  Part C : the recursion equals the one-shot weighted least squares          *)
+(*           (Gauss-Markov) solution -- positive definite data                 *)
+(* ========================================================================= *)
+Section PdFacts.
+Variable F : realFieldType.
+
+Lemma trmx11 (M : 'M[F]_1) : M^T = M.
+Proof. by apply/matrixP=> i j; rewrite mxE !ord1. Qed.
+
+Lemma pd_inv (n : nat) (A : 'M[F]_n) : A^T = A -> pd A -> pd (invmx A).
+Proof.
+move=> sA pA x nz; have uA := pd_unitmx pA.
+have nz' : invmx A *m x != 0.
+  by apply: contra nz => /eqP e; rewrite -[x]mul1mx -(mulmxV uA) -mulmxA e mulmx0.
+have := pA _ nz'.
+by rewrite trmx_mul (invmx_sym sA) -!mulmxA (mulmxA A) (mulmxV uA) mul1mx.
+Qed.
+
+Lemma pd_pos_or_eq (n : nat) (A : 'M[F]_n) (e : 'cV[F]_n) :
+  pd A -> qform A e <= 0 -> e = 0.
+Proof.
+move=> pA le0; apply/eqP; apply: contraT => nz.
+by have := pA _ nz; rewrite /qform in le0 *; rewrite ltNge le0.
+Qed.
+
+Lemma qform0 (n : nat) (A : 'M[F]_n) : qform A 0 = 0.
+Proof. by rewrite /qform mulmx0 mxE. Qed.
+
+(* (u + v)^T A (u + v) *)
+Lemma quad_shift (k : nat) (A : 'M[F]_k) (u v : 'cV[F]_k) :
+  (u + v)^T *m A *m (u + v) =
+  u^T *m A *m u + (u^T *m A *m v + v^T *m A *m u) + v^T *m A *m v.
+Proof. by rewrite trmx_add !mulmxDl !mulmxDr !addrA. Qed.
+End PdFacts.
+
+(* completing the square, abstractly: if Pi a = H^T Ri r (the gradient vanishes) then
+   |a + d|^2_Pi + |r - H d|^2_Ri = |a|^2_Pi + |r|^2_Ri + |d|^2_(Pi + H^T Ri H) *)
+Section CompleteSquare.
+Variable F : realFieldType.
+Variables n m : nat.
+Variables (Pi : 'M[F]_n) (Ri : 'M[F]_m) (H : 'M[F]_(m, n)).
+Variables (a d : 'cV[F]_n) (r : 'cV[F]_m).
+Hypothesis sPi : Pi^T = Pi.
+Hypothesis sRi : Ri^T = Ri.
+Hypothesis grad0 : Pi *m a = H^T *m Ri *m r.
+
+Lemma zmod_arith (V : zmodType) (t1 t2 t3 t4 q : V) :
+  t1 + (q + q) + t3 + (t2 + (- q - q) + t4) = t1 + t2 + (t3 + t4).
+Proof. by rewrite addrACA (addrACA t1) -opprD subrr addr0. Qed.
+
+Lemma complete_square :
+  (a + d)^T *m Pi *m (a + d) + (r - H *m d)^T *m Ri *m (r - H *m d) =
+  a^T *m Pi *m a + r^T *m Ri *m r + d^T *m (Pi + H^T *m Ri *m H) *m d.
+Proof.
+pose q := d^T *m (H^T *m Ri *m r).
+have c1 : a^T *m Pi *m d = q.
+  by rewrite -[LHS]trmx11 !trmx_mul trmxK sPi grad0.
+have c1' : d^T *m Pi *m a = q by rewrite -mulmxA grad0.
+have c2 : r^T *m Ri *m (- (H *m d)) = - q.
+  by rewrite /q mulmxN -[X in - X = _]trmx11 !trmx_mul !trmxK sRi !mulmxA.
+have c3 : (- (H *m d))^T *m Ri *m r = - q.
+  by rewrite /q linearN /= !mulNmx trmx_mul !mulmxA.
+have c4 : (- (H *m d))^T *m Ri *m (- (H *m d)) = d^T *m (H^T *m Ri *m H) *m d.
+  by rewrite mulmxN linearN /= !mulNmx opprK trmx_mul !mulmxA.
+rewrite !quad_shift c1 c1' c2 c3 c4 mulmxDr mulmxDl.
+exact: zmod_arith.
+Qed.
+End CompleteSquare.
+
+(* ---------- one stage: prior + one measurement block ------------------------ *)
+Section KeyIdentity.
+Variable F : realFieldType.
+Variables n m : nat.
+Variables (xb : 'cV[F]_n) (P : 'M[F]_n) (z : 'cV[F]_m) (H : 'M[F]_(m, n)) (R : 'M[F]_m).
+Hypothesis sP : P^T = P.
+Hypothesis pP : pd P.
+Hypothesis sR : R^T = R.
+Hypothesis pR : pd R.
+
+Let uP := pd_unitmx pP.
+Let uR := pd_unitmx pR.
+Local Notation S := (innov_cov P H R).
+Local Notation W := (info_mx P H R).
+Local Notation xh := (cond_mean xb P z H R).
+Local Notation K := (gain P H R).
+Local Notation e := (z - H *m xb).
+
+Lemma key_S_pd : pd S.
+Proof. by apply: pd_add_psd => //; apply: psd_conj; apply: pd_psd. Qed.
+
+Lemma key_S_sym : S^T = S.
+Proof. exact: innov_cov_sym. Qed.
+
+Lemma key_uS : S \in unitmx.
+Proof. exact: pd_unitmx key_S_pd. Qed.
+
+Lemma key_W_sym : W^T = W.
+Proof.
+by rewrite /info_mx trmx_add !trmx_mul trmxK (invmx_sym sP) (invmx_sym sR) mulmxA.
+Qed.
+
+Lemma key_W_pd : pd W.
+Proof.
+rewrite /info_mx addrC; apply: pd_add_psd; last exact: pd_inv.
+have := @psd_conj F _ _ (invmx R) H^T (pd_psd (pd_inv sR pR)).
+by rewrite trmxK.
+Qed.
+
+Lemma key_cov_W : cond_cov P H R *m W = 1%:M.
+Proof. exact: cond_cov_info key_uS uP uR. Qed.
+
+Lemma key_W_cov : W *m cond_cov P H R = 1%:M.
+Proof. exact/mulmx1C/key_cov_W. Qed.
+
+Lemma key_uW : W \in unitmx.
+Proof. exact: pd_unitmx key_W_pd. Qed.
+
+(* the posterior covariance is the inverse of the information matrix of the stacked system *)
+Lemma key_cov_eq : cond_cov P H R = invmx W.
+Proof. by rewrite -[LHS]mulmx1 -(mulmxV key_uW) mulmxA key_cov_W mul1mx. Qed.
+
+Lemma key_cov_sym : (cond_cov P H R)^T = cond_cov P H R.
+Proof. by rewrite key_cov_eq; apply: invmx_sym key_W_sym. Qed.
+
+Lemma key_cov_pd : pd (cond_cov P H R).
+Proof. by rewrite key_cov_eq; apply: pd_inv key_W_sym key_W_pd. Qed.
+
+Lemma key_inv_cov : invmx (cond_cov P H R) = W.
+Proof. by rewrite key_cov_eq invmxK. Qed.
+
+(* the posterior mean solves the normal equations of the stacked system *)
+Lemma key_normal : W *m xh = info_vec xb P z H R.
+Proof.
+rewrite /cond_mean (gain_info key_uS uR) mulmxDr !mulmxA key_W_cov mul1mx.
+rewrite /info_vec /info_mx mulmxDl -addrA; congr (_ + _).
+by rewrite -(mulmxA _ H xb) -mulmxDr addrCA subrr addr0.
+Qed.
+
+(* gradient of the cost at the posterior mean vanishes *)
+Lemma key_gradient : invmx P *m (xh - xb) = H^T *m invmx R *m (z - H *m xh).
+Proof.
+have := key_normal; rewrite /info_mx /info_vec mulmxDl => eq.
+rewrite !mulmxBr; apply/eqP; rewrite subr_eq addrAC eq_sym subr_eq eq_sym.
+by rewrite [X in _ == X]addrC (mulmxA _ H xh) eq.
+Qed.
+
+Local Notation Mcost x :=
+  ((x - xb)^T *m invmx P *m (x - xb) + (z - H *m x)^T *m invmx R *m (z - H *m x)).
+
+Lemma wls_costE x : wls_cost xb P z H R x = (Mcost x) 0 0.
+Proof. by rewrite /wls_cost /qform [RHS]mxE. Qed.
+
+(* completing the square *)
+Lemma key_split_mx x : Mcost x = Mcost xh + (x - xh)^T *m W *m (x - xh).
+Proof.
+have -> : x - xb = (xh - xb) + (x - xh) by rewrite [RHS]addrC addrA subrK.
+have -> : z - H *m x = (z - H *m xh) - H *m (x - xh) by rewrite mulmxBr opprB addrA subrK.
+by rewrite (complete_square (x - xh) (invmx_sym sP) (invmx_sym sR) key_gradient).
+Qed.
+
+Lemma key_split x : wls_cost xb P z H R x = wls_cost xb P z H R xh + qform W (x - xh).
+Proof. by rewrite !wls_costE key_split_mx mxE. Qed.
+
+(* the minimum value is the squared normalised innovation *)
+Lemma key_min : wls_cost xb P z H R xh = qform (invmx S) e.
+Proof.
+have uS := key_uS.
+have ea : xh - xb = K *m e by rewrite /cond_mean addrC addKr.
+have HK : H *m K = 1%:M - R *m invmx S.
+  rewrite /gain !mulmxA.
+  have -> : H *m P *m H^T = S - R by rewrite /innov_cov addrK.
+  by rewrite mulmxBl (mulmxV uS).
+have er : z - H *m xh = R *m invmx S *m e.
+  rewrite /cond_mean mulmxDr opprD addrA mulmxA HK mulmxBl mul1mx opprB addrC subrK. by [].
+rewrite wls_costE ea er /qform.
+have -> : (K *m e)^T *m invmx P *m (K *m e) = e^T *m (invmx S *m (H *m P *m H^T) *m invmx S) *m e.
+  rewrite /gain !trmx_mul trmxK sP (invmx_sym key_S_sym) !mulmxA.
+  by rewrite -(mulmxA _ P (invmx P)) (mulmxV uP) mulmx1.
+have -> : (R *m invmx S *m e)^T *m invmx R *m (R *m invmx S *m e) = e^T *m (invmx S *m R *m invmx S) *m e.
+  rewrite !trmx_mul sR (invmx_sym key_S_sym) !mulmxA.
+  by rewrite -(mulmxA _ R (invmx R)) (mulmxV uR) mulmx1.
+rewrite -mulmxDl -mulmxDr -mulmxDl -mulmxDr.
+have -> : H *m P *m H^T + R = S by [].
+by rewrite (mulVmx uS) mul1mx.
+Qed.
+
+(* KEY IDENTITY: for every x,
+   |x - xb|^2_{P^-1} + |z - H x|^2_{R^-1} = |z - H xb|^2_{S^-1} + |x - x+|^2_{W} *)
+Theorem key_identity x :
+  wls_cost xb P z H R x = qform (invmx S) e + qform W (x - xh).
+Proof. by rewrite key_split key_min. Qed.
+
+(* single stage: the Kalman update is the weighted least squares solution of the stacked system
+   [I; H] x = [xb; z], weight diag(P^-1, R^-1): normal equations, estimate, covariance, minimiser *)
+Lemma wls_info_eq : wls_info P H R = W.
+Proof.
+rewrite /wls_info /info_mx tr_col_mx trmx1 mul_row_block !mulmx0 addr0 add0r mul_row_col.
+by rewrite mul1mx mulmx1.
+Qed.
+
+Lemma wls_rhs_eq : wls_rhs xb P z H R = info_vec xb P z H R.
+Proof.
+rewrite /wls_rhs /info_vec tr_col_mx trmx1 mul_row_block !mulmx0 addr0 add0r mul_row_col.
+by rewrite mul1mx.
+Qed.
+
+Theorem single_stage_wls :
+  [/\ wls_est xb P z H R = xh,
+      wls_cov P H R = cond_cov P H R,
+      forall x, wls_cost xb P z H R xh <= wls_cost xb P z H R x
+    & forall x, wls_cost xb P z H R x = wls_cost xb P z H R xh -> x = xh].
+Proof.
+split.
+- by rewrite /wls_est wls_info_eq wls_rhs_eq -key_normal mulmxA (mulVmx key_uW) mul1mx.
+- by rewrite /wls_cov wls_info_eq key_cov_eq.
+- move=> x; rewrite (key_split x) ler_addl.
+  exact: (pd_psd key_W_pd).
+- move=> x; rewrite (key_split x) => /eqP; rewrite -subr_eq0 addrC addKr => /eqP q0.
+  apply/eqP; rewrite -subr_eq0; apply/eqP; apply: (pd_pos_or_eq key_W_pd).
+  by rewrite q0.
+Qed.
+End KeyIdentity.
+
+(* ---------- N stages --------------------------------------------------------- *)
+Section NStage.
+Variable F : realFieldType.
+Variable n : nat.
+Variable md : nat -> nat.
+Variable zs : forall k : nat, 'cV[F]_(md k).
+Variable Hs : forall k : nat, 'M[F]_(md k, n).
+Variable Rs : forall k : nat, 'M[F]_(md k).
+Variables Phis Qds : nat -> 'M[F]_n.
+Variable chols : forall k : nat, 'M[F]_(md k) -> 'M[F]_(md k).
+Variables (xb : 'cV[F]_n) (P0 : 'M[F]_n).
+
+Hypothesis sP0 : P0^T = P0.
+Hypothesis pP0 : pd P0.
+Hypothesis R_sym : forall k, (Rs k)^T = Rs k.
+Hypothesis R_pd : forall k, pd (Rs k).
+Hypothesis Q_sym : forall k, (Qds k)^T = Qds k.
+Hypothesis Q_pd : forall k, pd (Qds k).
+
+(* the recursion of the filter: N x (kalman.correct ; x <- Phi x, P <- Phi P Phi^T + Qd) *)
+Local Notation run N := (@kf_run F n md zs Hs Rs Phis Qds chols N (xb, P0)).
+
+(* The weighted least squares objective of the STACKED linear system in the unknowns
+   x_0, ..., x_N:
+       x_0           = xb      + e0,   e0  ~ (0, P0)
+       z_k           = H_k x_k + v_k,  v_k ~ (0, R_k)        k < N
+       0             = x_{k+1} - Phi_k x_k - w_k,  w_k ~ (0, Qd_k)   k < N
+   (Gauss-Markov: weights = inverse covariances). *)
+Fixpoint traj_cost (N : nat) (x : nat -> 'cV[F]_n) : F :=
+  match N with
+  | O => qform (invmx P0) (x 0%N - xb)
+  | S N' => traj_cost N' x
+            + qform (invmx (Rs N')) (zs N' - Hs N' *m x N')
+            + qform (invmx (Qds N')) (x (S N') - Phis N' *m x N')
+  end.
+
+(* sum of the squared normalised innovations of the recursion *)
+Fixpoint innov_cost (N : nat) : F :=
+  match N with
+  | O => 0
+  | S N' => innov_cost N'
+            + qform (invmx (innov_cov (run N').2 (Hs N') (Rs N'))) (zs N' - Hs N' *m (run N').1)
+  end.
+
+Lemma chain_eq (V : zmodType) (c A B C I E D : V) :
+  A + B = I + E -> E + C = D -> c + A + B + C = c + I + D.
+Proof. by move=> h1 h2; rewrite -(addrA c A) h1 -h2 !addrA. Qed.
+
+Lemma traj_cost_ext N (x x' : nat -> 'cV[F]_n) :
+  (forall k, (k <= N)%N -> x k = x' k) -> traj_cost N x = traj_cost N x'.
+Proof.
+elim: N => [|N IH] ext /=; first by rewrite ext.
+rewrite IH; last by move=> k le; apply: ext; apply: leqW.
+by rewrite !ext.
+Qed.
+
+(* one step of the recursion in terms of the conditional-Gaussian formulas *)
+(* scipy.linalg.cholesky returns a lower factor of the innovation covariance of stage k *)
+Definition chol_ok (k : nat) : Prop :=
+  cholesky_factor (@chols k) (correct_S (run k).2 (Hs k) (Rs k)).
+
+Lemma run_step N :
+  chol_ok N -> (run N).2^T = (run N).2 -> pd (run N).2 ->
+  let xc := cond_mean (run N).1 (run N).2 (zs N) (Hs N) (Rs N) in
+  let Pc := cond_cov (run N).2 (Hs N) (Rs N) in
+  run N.+1 = (Phis N *m xc, Phis N *m Pc *m (Phis N)^T + Qds N).
+Proof.
+move=> cF sP pP /=.
+have pP' := pd_psd pP.
+by have [-> -> _ _] := correct_is_conditional (run N).1 (zs N) sP pP' (R_sym N) (@R_pd N) cF.
+Qed.
+
+Definition stage_ok (N : nat) : Prop :=
+  [/\ (run N).2^T = (run N).2, pd (run N).2,
+      forall x, innov_cost N + qform (invmx (run N).2) (x N - (run N).1) <= traj_cost N x
+    & forall y, exists x, x N = y /\
+                          traj_cost N x = innov_cost N + qform (invmx (run N).2) (y - (run N).1)].
+
+Lemma stage_ok_all N : (forall k, (k < N)%N -> chol_ok k) -> stage_ok N.
+Proof.
+elim: N => [_|N IH cok].
+  split=> //= [x|y]; first by rewrite add0r.
+  by exists (fun=> y); rewrite add0r.
+have [sP pP lb att] : stage_ok N by apply: IH => k lt; apply: cok; apply: leqW.
+have cN : chol_ok N by apply: cok.
+set xh := (run N).1 in lb att *; set P := (run N).2 in sP pP lb att *.
+pose xc := cond_mean xh P (zs N) (Hs N) (Rs N).
+pose Pc := cond_cov P (Hs N) (Rs N).
+have sPc : Pc^T = Pc := key_cov_sym (Hs N) sP pP (R_sym N) (@R_pd N).
+have pPc : pd Pc := key_cov_pd (Hs N) sP pP (R_sym N) (@R_pd N).
+have iPc : invmx Pc = info_mx P (Hs N) (Rs N) := key_inv_cov (Hs N) sP pP (R_sym N) (@R_pd N).
+have eqrun : run N.+1 = (Phis N *m xc, Phis N *m Pc *m (Phis N)^T + Qds N) := run_step cN sP pP.
+have sPn : (run N.+1).2^T = (run N.+1).2.
+  by rewrite eqrun /= trmx_add !trmx_mul trmxK sPc Q_sym mulmxA.
+have pPn : pd (run N.+1).2.
+  by rewrite eqrun /=; apply: pd_add_psd (@Q_pd N); apply: psd_conj; apply: pd_psd.
+(* the two key identities *)
+have kmeas u : qform (invmx P) (u - xh) + qform (invmx (Rs N)) (zs N - Hs N *m u) =
+               qform (invmx (innov_cov P (Hs N) (Rs N))) (zs N - Hs N *m xh) + qform (invmx Pc) (u - xc).
+  by rewrite iPc; apply: (key_identity xh (zs N) (Hs N) sP pP (R_sym N) (@R_pd N) u).
+have ktime y u : qform (invmx Pc) (u - xc) + qform (invmx (Qds N)) (y - Phis N *m u) =
+                 qform (invmx (run N.+1).2) (y - (run N.+1).1) +
+                 qform (info_mx Pc (Phis N) (Qds N)) (u - cond_mean xc Pc y (Phis N) (Qds N)).
+  by rewrite eqrun; apply: (key_identity xc y (Phis N) sPc pPc (Q_sym N) (@Q_pd N) u).
+have pW' : psd (info_mx Pc (Phis N) (Qds N)).
+  exact/pd_psd/(key_W_pd (Phis N) sPc pPc (Q_sym N) (@Q_pd N)).
+split=> // [x|y].
+- (* lower bound *)
+  rewrite /= -/xh -/P.
+  have := lb x; rewrite -(ler_add2r (qform (invmx (Rs N)) (zs N - Hs N *m x N))).
+  rewrite -(ler_add2r (qform (invmx (Qds N)) (x N.+1 - Phis N *m x N))) => lb'.
+  apply: le_trans lb'.
+  rewrite -!addrA (addrA (qform (invmx P) _)) kmeas -!addrA ler_add2l ler_add2l ktime.
+  by rewrite ler_addl; apply: pW'.
+- (* attained *)
+  have [us us_def] : exists us, us = cond_mean xc Pc y (Phis N) (Qds N) by eexists.
+  have [x' [x'N cost']] := att us.
+  exists (fun k => if (k <= N)%N then x' k else y); split; first by rewrite ltnn.
+  rewrite [traj_cost N.+1 _]/= [innov_cost N.+1]/= leqnn ltnn x'N -/xh -/P.
+  rewrite (@traj_cost_ext N _ x'); last by move=> k ->.
+  rewrite cost'.
+  have k2 := ktime y us; rewrite -us_def subrr qform0 addr0 in k2.
+  exact: chain_eq (kmeas us) k2.
+Qed.
+
+(* Tier B.  For positive-definite P0, R_k, Qd_k and ANY Phi_k, H_k, any dimensions, any number N of
+   stages: the state (x_N, P_N) produced by the recursion of the generated code is the one-shot
+   weighted least squares (Gauss-Markov) solution of the stacked system for its last block:
+   the stacked objective, minimised over x_0 .. x_{N-1} for fixed x_N = y, equals
+       (sum of squared normalised innovations) + |y - x_N^|^2 weighted by P_N^-1 ;
+   hence x_N^ is the x_N-component of every minimiser and P_N^-1 is the information matrix of x_N. *)
+Theorem kalman_eq_batch_pd N :
+  (forall k, (k < N)%N -> chol_ok k) ->
+  let xN := (run N).1 in let PN := (run N).2 in
+  [/\ PN^T = PN /\ pd PN,
+      forall x, innov_cost N + qform (invmx PN) (x N - xN) <= traj_cost N x,
+      forall y, exists x, x N = y /\ traj_cost N x = innov_cost N + qform (invmx PN) (y - xN),
+      (forall x, innov_cost N <= traj_cost N x) /\ (exists x, x N = xN /\ traj_cost N x = innov_cost N)
+    & forall x, traj_cost N x = innov_cost N -> x N = xN].
+Proof.
+move=> cok; have [sP pP lb att] := stage_ok_all cok.
+have pPi : pd (invmx (run N).2) := pd_inv sP pP.
+split=> //.
+- split.
+  + move=> x; apply: le_trans (lb x); rewrite ler_addl; exact: (pd_psd pPi).
+  + have [x [xN cx]] := att (run N).1; exists x; split=> //.
+    by rewrite cx subrr qform0 addr0.
+- move=> x cx; have := lb x; rewrite cx ger_addl => le0.
+  by apply/eqP; rewrite -subr_eq0; apply/eqP; apply: (pd_pos_or_eq pPi).
+Qed.
+
+End NStage.
+
+(* two-stage composition spelled out (N = 2): prior, measurement 0, transition 0, measurement 1,
+   transition 1 -- instance of the general theorem, kept as an explicit corollary *)
+Corollary kalman_eq_batch_two_stage
+  (F : realFieldType) (n : nat) (md : nat -> nat)
+  (zs : forall k : nat, 'cV[F]_(md k)) (Hs : forall k : nat, 'M[F]_(md k, n))
+  (Rs : forall k : nat, 'M[F]_(md k)) (Phis Qds : nat -> 'M[F]_n)
+  (chols : forall k : nat, 'M[F]_(md k) -> 'M[F]_(md k)) (xb : 'cV[F]_n) (P0 : 'M[F]_n) :
+  P0^T = P0 -> pd P0 ->
+  (forall k, (Rs k)^T = Rs k) -> (forall k, pd (Rs k)) ->
+  (forall k, (Qds k)^T = Qds k) -> (forall k, pd (Qds k)) ->
+  (forall k, (k < 2)%N -> chol_ok zs Hs Rs Phis Qds chols xb P0 k) ->
+  let s2 := @kf_run F n md zs Hs Rs Phis Qds chols 2 (xb, P0) in
+  forall x : nat -> 'cV[F]_n,
+    traj_cost zs Hs Rs Phis Qds xb P0 2 x = innov_cost zs Hs Rs Phis Qds chols xb P0 2 -> x 2%N = s2.1.
+Proof.
+move=> sP0 pP0 Rsym Rpd Qsym Qpd cok s2 x.
+by have [_ _ _ _ h] := @kalman_eq_batch_pd F n md zs Hs Rs Phis Qds chols xb P0 sP0 pP0 Rsym Rpd Qsym Qpd 2 cok; apply: h.
+Qed.
+
+(* non-vacuity: one stage, 1 x 1: P0 = 3, H = 1, R = 1 (S = 4, L = 2), Phi = 1, Qd = 1 *)
+Lemma example_batch (F : realFieldType) :
+  let md := fun _ : nat => 1%N in
+  let zs := fun _ : nat => (0 : 'cV[F]_1) in
+  let Hs := fun _ : nat => (1%:M : 'M[F]_1) in
+  let Rs := fun _ : nat => (1%:M : 'M[F]_1) in
+  let Phis := fun _ : nat => (1%:M : 'M[F]_1) in
+  let Qds := fun _ : nat => (1%:M : 'M[F]_1) in
+  let chols := fun (_ : nat) (_ : 'M[F]_1) => (2%:R%:M : 'M[F]_1) in
+  let P0 : 'M[F]_1 := 3%:R%:M in
+  [/\ P0^T = P0 /\ pd P0, (forall k, (Rs k)^T = Rs k) /\ (forall k, pd (Rs k)),
+      (forall k, (Qds k)^T = Qds k) /\ (forall k, pd (Qds k))
+    & forall k, (k < 1)%N -> @chol_ok F 1 md zs Hs Rs Phis Qds chols 0 P0 k].
+Proof.
+move=> md zs Hs Rs Phis Qds chols P0.
+have [[sP _] [sR pR] cF _] := example_correct F.
+split.
+- by split; [exact: sP | apply: pd_scalar; rewrite ltr0n].
+- by split=> k; [rewrite trmx1 | apply: pd_scalar; rewrite ltr01].
+- by split=> k; [rewrite trmx1 | apply: pd_scalar; rewrite ltr01].
+- by case=> // _; exact: cF.
+Qed.
+
+(* non-vacuity of the hypotheses of [kalman_flow_spec] over ANY real field (no square roots needed):
+   a measurement block that observes nothing (H = 0), R = 1: every innovation covariance is 1.
+   (Over a field with square roots -- the reals -- the Cholesky hypothesis holds for every H.) *)
+Lemma example_flow_hyps (F : realFieldType) (ni ng na : nat) :
+  let mdim := fun _ : nat => 1%N in
+  let Hf := fun (_ : nat) (_ : Q) => (0 : 'M[F]_(1, ni)) in
+  let Rf := fun _ : nat => (1%:M : 'M[F]_1) in
+  let chol := fun (_ : nat) (_ : 'M[F]_1) => (1%:M : 'M[F]_1) in
+  [/\ forall k, (Rf k)^T = Rf k, forall k, pd (Rf k)
+    & forall k m (P : 'M[F]_(ni + (ng + na))), P^T = P -> psd P ->
+        cholesky_factor (chol k) (correct_S P (@h_full F ni ng na mdim Hf k m) (Rf k))].
+Proof.
+move=> mdim Hf Rf chol; split=> [k|k|k m P _ _].
+- by rewrite trmx1.
+- by apply: pd_scalar; rewrite ltr01.
+- rewrite /h_full row_mx0 correct_S_eq /innov_cov !mul0mx add0r.
+  by split; [exact: is_lower_scalar | rewrite mul1mx trmx1].
+Qed.
